@@ -83,6 +83,14 @@ type PathState struct {
 	replayPos int
 	lastNow   *Term
 	bigLen    map[*Value]*Term
+	dom       map[*Term]*byteSet
+	tainted   map[*Term]bool
+	taintSeen map[*Term]bool
+}
+
+func newPathState() *PathState {
+	return &PathState{pcSet: map[*Term]bool{}, fresh: map[string]int{}, reached: map[string]bool{},
+		dom: map[*Term]*byteSet{}, tainted: map[*Term]bool{}, taintSeen: map[*Term]bool{}}
 }
 
 type HarnessResult struct {
@@ -187,10 +195,108 @@ func (e *Engine) freshVar(tag string, w uint8) *Term {
 
 // ---- path condition
 
+// ---- byte domains: conditions over a single 8-bit variable that occurs in no multi-variable
+// path condition are decided by evaluating them on the variable's remaining value set (exact,
+// no solver call). This is what parsers branch on almost exclusively.
+
+type byteSet [4]uint64
+
+func (s *byteSet) has(k int) bool { return s[k>>6]&(1<<(uint(k)&63)) != 0 }
+func (s *byteSet) empty() bool    { return s[0]|s[1]|s[2]|s[3] == 0 }
+
+var fullByteSet = byteSet{^uint64(0), ^uint64(0), ^uint64(0), ^uint64(0)}
+
+func (e *Engine) domOf(v *Term) *byteSet {
+	p := e.path
+	if d, ok := p.dom[v]; ok {
+		return d
+	}
+	return &fullByteSet
+}
+
+// truthSet returns the subset of dom on which c (single variable v) is true.
+func truthSet(c *Term, v *Term, dom *byteSet) byteSet {
+	var out byteSet
+	env := map[string]uint64{}
+	for k := 0; k < 256; k++ {
+		if !dom.has(k) {
+			continue
+		}
+		env[v.name] = uint64(k)
+		if Eval(c, env, map[*Term]uint64{}) != 0 {
+			out[k>>6] |= 1 << (uint(k) & 63)
+		}
+	}
+	return out
+}
+
+func (e *Engine) domainEligible(c *Term) *Term {
+	v := c.sv
+	if v == nil || v.w != 8 || c.size > 400 || e.path.tainted[v] {
+		return nil
+	}
+	return v
+}
+
+// domainFeasible decides sat(pc ∧ c) by the byte domain when c is eligible.
+func (e *Engine) domainFeasible(c *Term) (Result, map[string]uint64, bool) {
+	v := e.domainEligible(c)
+	if v == nil {
+		return Unknown, nil, false
+	}
+	dom := e.domOf(v)
+	ts := truthSet(c, v, dom)
+	if ts.empty() {
+		return Unsat, nil, true
+	}
+	e.solver.Stats.ModelHit++
+	p := e.path
+	if p.model == nil {
+		return Sat, nil, true
+	}
+	// patch the cached witness: v is independent of every other path condition
+	k := 0
+	for ; k < 256; k++ {
+		if ts.has(k) {
+			break
+		}
+	}
+	if cur, ok := p.model[v.name]; ok && ts.has(int(cur&0xff)) {
+		return Sat, p.model, true
+	}
+	m := make(map[string]uint64, len(p.model)+1)
+	for n, x := range p.model {
+		m[n] = x
+	}
+	m[v.name] = uint64(k)
+	return Sat, m, true
+}
+
+func (e *Engine) taint(c *Term) {
+	p := e.path
+	if p.taintSeen[c] {
+		return
+	}
+	p.taintSeen[c] = true
+	var vs []*Term
+	Vars(c, map[*Term]bool{}, &vs)
+	for _, v := range vs {
+		p.tainted[v] = true
+	}
+}
+
 func (e *Engine) addPC(c *Term) {
 	p := e.path
 	if c.IsTrue() || p.pcSet[c] {
 		return
+	}
+	if c.mv {
+		e.taint(c)
+	} else if v := e.domainEligible(c); v != nil {
+		ts := truthSet(c, v, e.domOf(v))
+		p.dom[v] = &ts
+	} else if c.sv != nil {
+		p.tainted[c.sv] = true // too large to evaluate: leave this variable to the solver
 	}
 	p.pc = append(p.pc, c)
 	p.pcSet[c] = true
@@ -280,6 +386,9 @@ func (e *Engine) feasible(c *Term) (Result, map[string]uint64) {
 	if p.model != nil && Eval(c, p.model, map[*Term]uint64{}) != 0 {
 		e.solver.Stats.ModelHit++
 		return Sat, p.model
+	}
+	if r, m, ok := e.domainFeasible(c); ok {
+		return r, m
 	}
 	// make sure vars of c are in the var list (they are, all created through freshVar)
 	r, m := e.check([]*Term{c})
@@ -602,8 +711,8 @@ func (e *Engine) logUndo(fn func()) {
 // ---- path driver
 
 func (e *Engine) newPath(w WorkItem) {
-	e.path = &PathState{prefix: w.Prefix, pcSet: map[*Term]bool{}, model: w.Model,
-		fresh: map[string]int{}, reached: map[string]bool{}, replayIn: e.concreteInputs}
+	e.path = newPathState()
+	e.path.prefix, e.path.model, e.path.replayIn = w.Prefix, w.Model, e.concreteInputs
 	// the inherited model only witnesses the prefix' pc once replayed; it is validated lazily:
 	// addPC drops it as soon as it falsifies a condition.
 }
